@@ -6,6 +6,8 @@ import (
 	"go/token"
 	"go/types"
 	"math"
+	"regexp"
+	"strconv"
 	"strings"
 
 	"golang.org/x/tools/go/ssa"
@@ -224,6 +226,53 @@ func (p *Path) intrinsic(caller *frame, fn *ssa.Function, name string, args []Va
 	case "(*internal/godebug.Setting).Value":
 		return mkStr(""), true
 	case "(*internal/godebug.Setting).IncNonDefault":
+		return nil, true
+	case "regexp.QuoteMeta":
+		if s0 := args[0].(Str); s0.isConcrete() {
+			return mkStr(regexp.QuoteMeta(s0.c)), true
+		}
+	case "strconv.ParseFloat":
+		if s0 := args[0].(Str); s0.isConcrete() {
+			if bits, ok := asInt(args[1]); ok {
+				f, err := strconv.ParseFloat(s0.c, int(bits))
+				if err != nil {
+					var cell Value = Struct{mkStr(err.Error())}
+					return Tuple{smt.ConstFP(f), Iface{T: types.NewPointer(p.in.errorsErrorString), V: &cell}}, true
+				}
+				return Tuple{smt.ConstFP(f), Iface{}}, true
+			}
+		}
+	case "context.WithCancel":
+		// model: the derived context is the parent itself and cancelling is a no-op. Sound for
+		// harnesses in which nothing observes Done()/Err() of the derived context (the scan
+		// harnesses replace every consumer of the context by stubs that ignore it).
+		return Tuple{args[0], NativeFn(func([]Value) Value { return nil })}, true
+	case "(*sync.WaitGroup).Add":
+		if p.wgCount == nil {
+			p.wgCount = map[*Value]int{}
+		}
+		p.wgCount[args[0].(*Value)] += int(p.intArg(args[1], "WaitGroup delta"))
+		if p.wgCount[args[0].(*Value)] < 0 {
+			panic(targetPanic{msg: "sync: negative WaitGroup counter"})
+		}
+		return nil, true
+	case "(*sync.WaitGroup).Done":
+		if p.wgCount == nil {
+			p.wgCount = map[*Value]int{}
+		}
+		p.wgCount[args[0].(*Value)]--
+		if p.wgCount[args[0].(*Value)] < 0 {
+			panic(targetPanic{msg: "sync: negative WaitGroup counter"})
+		}
+		return nil, true
+	case "(*sync.WaitGroup).Wait":
+		// the waiter blocks: pending goroutines (lazy schedule) get to run
+		for p.wgCount[args[0].(*Value)] > 0 && len(p.pendingGo) > 0 {
+			p.runPendingOne()
+		}
+		if p.wgCount[args[0].(*Value)] > 0 {
+			panic(targetPanic{msg: "WaitGroup.Wait: would block forever (deadlock) in sequential semantics"})
+		}
 		return nil, true
 	case "errors.As":
 		return smt.ConstBool(p.errorsAs(caller, args[0].(Iface), args[1].(Iface), 0)), true
@@ -562,6 +611,54 @@ func (p *Path) sprintf(caller *frame, format string, args []Value) Str {
 	}
 	if !anySym {
 		return mkStr(fmt.Sprintf(format, natives...))
+	}
+	// a '*' width or precision with a concrete operand is folded into the format text
+	if strings.Contains(format, "*") {
+		var fb strings.Builder
+		var keepArgs []Value
+		var keepNat []interface{}
+		ai := 0
+		ok := true
+		for k := 0; k < len(format) && ok; k++ {
+			c := format[k]
+			if c != '%' {
+				fb.WriteByte(c)
+				continue
+			}
+			fb.WriteByte('%')
+			k++
+			for k < len(format) && strings.IndexByte("+-# 0123456789.*", format[k]) >= 0 {
+				if format[k] == '*' {
+					if ai < len(natives) {
+						switch w := natives[ai].(type) {
+						case int:
+							fb.WriteString(strconv.Itoa(w))
+						case int64:
+							fb.WriteString(strconv.FormatInt(w, 10))
+						default:
+							ok = false
+						}
+						ai++
+					} else {
+						ok = false
+					}
+				} else {
+					fb.WriteByte(format[k])
+				}
+				k++
+			}
+			if k < len(format) {
+				fb.WriteByte(format[k])
+				if format[k] != '%' && ai < len(args) {
+					keepArgs = append(keepArgs, args[ai])
+					keepNat = append(keepNat, natives[ai])
+					ai++
+				}
+			}
+		}
+		if ok {
+			format, args, natives = fb.String(), keepArgs, keepNat
+		}
 	}
 	// single verb on a symbolic scalar -> format token
 	if len(args) == 1 && strings.HasPrefix(format, "%") && strings.Count(format, "%") == 1 {
